@@ -3,6 +3,7 @@ package frame
 import (
 	"bufio"
 	"bytes"
+	"errors"
 	"fmt"
 	"io"
 	"time"
@@ -123,7 +124,19 @@ func (r *Reader) Read() (Frame, error) {
 
 	err = f.unmarshal(r.BufByteReader)
 	if err != nil {
-		return nil, newError("%s", err.Error())
+		// parse errors are not fatal
+		var perr ReadError
+		if errors.As(err, &perr) {
+			return nil, perr
+		}
+
+		// errors of the underlying reader that happen in the middle of a frame
+		// (i.e. a timeout or a disconnection) must be returned as they are,
+		// otherwise the caller never sees them and loses the rest of the frame.
+		if errors.Is(err, io.ErrUnexpectedEOF) {
+			err = io.EOF
+		}
+		return nil, err
 	}
 
 	if r.InKey != nil {
